@@ -13,6 +13,7 @@ libc = ctypes.CDLL(None)
 libc.setlocale.restype = ctypes.c_char_p
 libc.setlocale.argtypes = [ctypes.c_int, ctypes.c_char_p]
 TEST_LOCALE = b"C.utf8"
+COMMA = None      # dict(LOCPATH, name) of the decimal-comma locale built by run() (lib/localetool.py), or None
 
 
 def get_locale():
@@ -26,8 +27,10 @@ class Env:
         aw = xrl.DataFiles(src).scalar2("atomicweight.dat")
         self.aw = {z: xrl.round11(v) for z, v in aw.items() if v > 0}
         self.mendel_max = self.h.val["MENDEL_MAX"]
-        libc.setlocale(LC_ALL, TEST_LOCALE)
+        libc.setlocale(LC_ALL, self.test_locale)
         self.locale0 = get_locale()
+
+    test_locale = TEST_LOCALE
 
     def parse(self, s):
         """-> (dict(elements, nAtoms, nAtomsAll, molarMass, massFractions) | None, err)"""
@@ -66,7 +69,7 @@ class Env:
     def locale_changed(self):
         now = get_locale()
         if now != self.locale0:
-            libc.setlocale(LC_ALL, TEST_LOCALE)
+            libc.setlocale(LC_ALL, self.test_locale)
             return now
         return None
 
@@ -257,6 +260,10 @@ def judge_string(st, env, b, origin):
 
 def work(item):
     lib_path, src, part, n, seed = item
+    if COMMA and isinstance(part, tuple) and part[0] in ("grammar", "mutants") and part[1] % 2 == 1:
+        # this worker's process runs under a locale whose decimal separator is a comma: subscripts are written with '.', whatever the locale
+        os.environ["LOCPATH"] = COMMA["LOCPATH"]
+        Env.test_locale = COMMA["name"].encode()
     env = Env(lib_path, src)
     env.h_invalid = 1  # XRL_ERROR_INVALID_ARGUMENT (second enumerator of xrl_error_code)
     st = Stats()
@@ -450,10 +457,14 @@ def run(ctx):
                 "fractional / leading-dot subscripts) each also permuted and with one group expanded, plus insertion of an element without atomic "
                 "weight; (c) Hypothesis single-character insert/delete/substitute mutants (bytes 1..255) and the exhaustive mutant set of 9 pool "
                 "formulas, classified MUST-ACCEPT / MUST-REJECT / UNSPECIFIED by a strict reference recogniser; (d) add_compound_data on "
-                "generated pairs; numeric locale (C.utf8) compared before/after every call. Oracle: exact Fraction expansion, weights from "
+                "generated pairs; numeric locale (C.utf8, or a generated decimal-comma locale in every second grammar / mutant worker) compared before/after every call. Oracle: exact Fraction expansion, weights from "
                 "atomicweight.dat, 1e-12. non-trivial = formula with a group / repeated element / fractional subscript; mutant whose verdict "
                 "differs from its parent's; pair/single (distinct by string)")
     b = ctx.build("plain", "A")
+    global COMMA
+    import localetool
+    COMMA = localetool.make_comma_locale(ctx.sdir)
+    ctx.extra["comma_locale"] = bool(COMMA)
     parts = ["singles"] + [("pairs", k, 8) for k in range(8)] + [("exhaustive_mutants", k, 3) for k in range(3)]
     reps = 4 if ctx.quick else 12
     for k in range(reps):
@@ -471,7 +482,7 @@ def run(ctx):
             ctx.stats.merge(st)
     ctx.rule += ("; (e) libFuzzer target fuzz_formula_diff (%d processes x %d runs, with and without the seed corpus): CompoundParser against a C++ port of the "
                  "strict recogniser, same three verdicts, composition to 1e-9" % (len(items), runs))
-    ctx.assumptions = ["only the C.utf8 locale exists in the image: the check sees a lost restore, not a decimal-comma mis-parse",
+    ctx.assumptions = ["half of the grammar / mutant workers run under a decimal-comma locale built with localedef (when localedef is missing: C.utf8 only, and then the check sees a lost restore but not a decimal-comma mis-parse)",
                        "strings outside both the strict grammar and the listed rejection classes are UNSPECIFIED (only consistency is required)"]
 
 
